@@ -17,7 +17,8 @@
 EXTENDS Naturals, Integers, Sequences, FiniteSets, TLC
 
 CONSTANTS MaxCalls,     \* bound on the number of API calls per program
-          Finite        \* Finite[s]: stream s stops by itself (finite frame count)
+          Finite,       \* Finite[s]: stream s stops by itself (finite frame count)
+          SameStore     \* configurations in which both streams use the same storage device are offered to the client
 Streams == {0, 1}
 Devs == {0, 1}
 AWAIT == 1
@@ -25,6 +26,9 @@ ARMED == 2
 RUNNING == 3
 \* device assignments a configure call may ask for: <<cam0, sto0, cam1, sto1>>, -1 = stream not configured
 Cfgs == {<<0, 0, -1, -1>>, <<0, 0, 1, 1>>, <<1, 1, -1, -1>>, <<-1, -1, 0, 0>>, <<0, 1, 1, 0>>, <<1, 0, -1, -1>>, <<-1, -1, -1, -1>>}
+        \cup (IF SameStore THEN {<<0, 0, 1, 0>>} ELSE {})
+\* SameStore: both streams may be pointed at storage device 0. A storage device has one writer (as the raw writer's file lock):
+\* the second instance's start is refused by the driver, acquire_start fails and winds down what it had started (finding F11).
 
 VARIABLES rstate, valid, cam, sto, camSt, stoSt, camDrv, stoDrv, alive, stopReq,
           pc, arg, cur, ncalls, want, ev,
@@ -142,7 +146,8 @@ StartGo == /\ pc = "start_check" /\ GS # RUNNING /\ valid # {}
            /\ UNCHANGED <<valid, cam, sto, camSt, stoSt, camDrv, stoDrv, alive, stopReq, arg, cur, ncalls, want>>
 StartSkip == /\ pc = "start_sto" /\ cur \in Streams /\ cur \notin valid
              /\ cur' = cur + 1 /\ ev' = NoEv /\ NoDev /\ Same /\ UNCHANGED <<pc, arg, ncalls, want>>
-StartSto == /\ pc = "start_sto" /\ cur \in valid /\ stoSt[cur] = ARMED
+Busy(s) == \E t \in Streams \ {s} : stoDrv[t] /\ sto[t] = sto[s]      \* another open instance of the same device is running
+StartSto == /\ pc = "start_sto" /\ cur \in valid /\ stoSt[cur] = ARMED /\ ~Busy(cur)
             /\ stoSt' = [stoSt EXCEPT ![cur] = RUNNING] /\ stoDrv' = [stoDrv EXCEPT ![cur] = TRUE]
             /\ ev' = E("StorStart", sto[cur], 0) /\ Start("sto", cur) /\ Goto("start_cam")
             /\ UNCHANGED <<rstate, valid, cam, sto, camSt, camDrv, alive, stopReq, arg, cur, ncalls, want>>
@@ -151,6 +156,24 @@ StartCam == /\ pc = "start_cam" /\ camSt[cur] = ARMED
             /\ alive' = [alive EXCEPT ![cur] = TRUE] /\ stopReq' = [stopReq EXCEPT ![cur] = FALSE]
             /\ ev' = E("CamStart", cam[cur], 0) /\ Start("cam", cur) /\ cur' = cur + 1 /\ Goto("start_sto")
             /\ UNCHANGED <<rstate, valid, cam, sto, stoSt, stoDrv, arg, ncalls, want>>
+\* video_sink_start fails: the driver refuses the start (the device is left AwaitingConfiguration), or the HAL refuses a
+\* device that is not armed without calling the driver. acquire_start's error path asks every valid stream to stop, joins
+\* the workers it had started, and reports AwaitingConfiguration.
+StartStoRefused == /\ pc = "start_sto" /\ cur \in valid /\ stoSt[cur] = ARMED /\ Busy(cur)
+                   /\ stoSt' = [stoSt EXCEPT ![cur] = AWAIT]
+                   /\ ev' = E("StorStartRefused", sto[cur], 0)
+                   /\ bad' = (IF <<"sto", cur>> \notin opened THEN "UseAfterClose" ELSE bad) /\ UNCHANGED <<opened, running>>
+                   /\ Goto("start_err")
+                   /\ UNCHANGED <<rstate, valid, cam, sto, camSt, camDrv, stoDrv, alive, stopReq, arg, cur, ncalls, want>>
+StartStoNotArmed == /\ pc = "start_sto" /\ cur \in valid /\ stoSt[cur] # ARMED
+                    /\ ev' = NoEv /\ NoDev /\ Goto("start_err") /\ Same /\ UNCHANGED <<arg, cur, ncalls, want>>
+StartErr == /\ pc = "start_err"
+            /\ stopReq' = [s \in Streams |-> IF s \in valid THEN TRUE ELSE stopReq[s]]
+            /\ ev' = NoEv /\ NoDev /\ Goto("start_err_join")
+            /\ UNCHANGED <<rstate, valid, cam, sto, camSt, stoSt, camDrv, stoDrv, alive, arg, cur, ncalls, want>>
+StartErrRet == /\ pc = "start_err_join" /\ \A s \in valid : ~alive[s]
+               /\ rstate' = AWAIT /\ ev' = E("ApiRet", 2, AWAIT) /\ arg' = <<1, 0, 0, 0>> /\ Goto("idle") /\ NoDev
+               /\ UNCHANGED <<valid, cam, sto, camSt, stoSt, camDrv, stoDrv, alive, stopReq, cur, ncalls, want>>
 StartRet == /\ pc = "start_sto" /\ cur = 2
             /\ ev' = E("ApiRet", 2, IF \E s \in valid : alive[s] THEN RUNNING ELSE ARMED)
             /\ rstate' = (IF \E s \in valid : alive[s] THEN RUNNING ELSE ARMED)
@@ -202,6 +225,7 @@ Worker == \E s \in Streams : WCamStop(s) \/ WStorStop(s) \/ WExit(s)
 Client == \/ \E c \in Cfgs : CfgCall(c)
           \/ CfgSkip \/ CfgCamClose \/ CfgCamOpen \/ CfgStoClose \/ CfgStoOpen \/ CfgRet
           \/ StartCall \/ StartRefused \/ StartGo \/ StartSkip \/ StartSto \/ StartCam \/ StartRet
+          \/ StartStoRefused \/ StartStoNotArmed \/ StartErr \/ StartErrRet
           \/ StopCall \/ AbortCall \/ JoinRet \/ StateCall
           \/ ShutCall \/ ShutJoin \/ ShutCam \/ ShutSto \/ ShutRet
 Next == Worker \/ Client
@@ -215,6 +239,9 @@ ReportedStateOK == (ev.e = "ApiRet" /\ ev.b = RUNNING) => \E s \in Streams : ali
 ArmedAfterStop == (ev.e = "ApiRet" /\ ev.a \in {3, 4}) => ev.b = ARMED
 DriverTruth == \A s \in Streams : (camDrv[s] => cam[s] # -1) /\ (stoDrv[s] => sto[s] # -1)
 \* liveness: stop / abort / shutdown return
-Returns == (pc \in {"join", "shut_join"}) ~> (pc \notin {"join", "shut_join"})
+Returns == (pc \in {"join", "shut_join", "start_err_join"}) ~> (pc \notin {"join", "shut_join", "start_err_join"})
+\* a failed start leaves no device running and no worker alive (the repaired error path of acquire_start)
+FailedStartWindsDown == (ev.e = "ApiRet" /\ ev.a = 2 /\ ev.b = AWAIT /\ valid # {}) =>
+                          \A s \in valid : ~alive[s] /\ ~camDrv[s] /\ ~stoDrv[s]
 View == <<rstate, valid, cam, sto, camSt, stoSt, camDrv, stoDrv, alive, stopReq, pc, arg, cur, ncalls, want, opened, running, bad>>
 =============================================================================
